@@ -405,7 +405,9 @@ def build():
         })
     man = {
         'version': 1,
-        'setup_cmd': 'cd lean && lake build',
+        # (every check rebuilds for itself and reports a failing build as a broken obligation: an incomplete build
+        #  here must not keep the checks from running)
+        'setup_cmd': 'cd lean && (lake build || echo "setup: build incomplete - every check rebuilds for itself")',
         'hooks': {
             'guard': 'PYUSID_VERIF',
             'enable': 'no source hooks: observation is done by wrapping h5py/psutil entry points inside the harness process; '
